@@ -169,6 +169,7 @@ func callDyn(e *Env, table string, op byte, depth int, memLen, last, size uint64
 //	P3 request inside memory: dyn(size=L) - dyn(size=0) = 0,                 lastGasCost unchanged
 //	P4 non-multiple of 32 is rounded up to whole words
 //	P5 size above 0x1FFFFFFFE0 is refused (error), the maximum itself is priced
+//	P6 2 words paid, 3 requested: one more word is charged (word count below the old byte length)
 func ProbeRow(e *Env, table string, op byte, row vm.VerifC15Row) ProbeResult {
 	res := ProbeResult{Safe: true}
 	if !row.Defined {
@@ -238,6 +239,12 @@ func ProbeRow(e *Env, table string, op byte, row vm.VerifC15Row) ProbeResult {
 	_, _, err6, p6 := callDyn(e, table, op, depth, 0, 0, maxMem+32)
 	if p6 || err6 == nil {
 		return fail("P5b: size above the maximum is priced instead of refused")
+	}
+	// P6: growth by one word of a small memory (the new word count is below the old BYTE length:
+	// catches a comparison of words with bytes)
+	g7, l7, err7, p7 := callDyn(e, table, op, depth, 64, MemGas64(2), 96)
+	if p7 || err7 != nil || g7 < g0 || g7-g0 != MemGas64(3)-MemGas64(2) || l7 != MemGas64(3) {
+		return fail("P6: %d want %d (err %v)", int64(g7-g0), MemGas64(3)-MemGas64(2), err7)
 	}
 	res.Charges = true
 	return res
